@@ -299,3 +299,18 @@ Print Assumptions result_closed_refuted.
 Print Assumptions result_closed_lexical_refuted.
 Print Assumptions result_closed_wildcard_refuted.
 Print Assumptions result_closed_linkglob_refuted.
+
+(* ---- source equivalences (tools/go2coq; gen/SrcFns.v is regenerated from /repo on every run): the
+        Gallina definitions translated from followlinks.go's containsWildcards (Linux: runtime.GOOS =
+        "linux") and dedupePaths (nested range loops with `continue loop`) equal the models; the
+        model's None is the nil slice Go returns on ".", which the translation renders as the empty list ---- *)
+From FSGen Require SrcFns.
+From FS Require Proofs.Src.ContainsWildcardsEq Proofs.Src.DedupePathsEq.
+Theorem containsWildcards_src_eq :
+  forall s, SrcFns.containsWildcards s = Some (contains_wildcards s).
+Proof. exact ContainsWildcardsEq.containsWildcards_src_eq. Qed.
+Theorem dedupePaths_src_eq :
+  forall l, SrcFns.dedupePaths l = Some (match dedupe_paths l with Some r => r | None => [] end).
+Proof. exact DedupePathsEq.dedupePaths_src_eq. Qed.
+Print Assumptions containsWildcards_src_eq.
+Print Assumptions dedupePaths_src_eq.
